@@ -41,6 +41,9 @@ def run(rep, tier):
     small_pair_tables(rep, F)
     contains_point_table(rep, F)
     shape_pair_tables(rep, F)
+    # the zero shortcut of the Line / LineString / Polygon kernels is Line∩Line, also for zero-length segments (repeated vertices): table shared with C11
+    from . import c11 as _c11
+    _c11.agreement(rep, F, rule="R7.14")
     # the legacy EuclideanDistance / EuclideanLength traits are twins of Euclidean.distance / length (rule shared with C16)
     from . import c16
     c16.legacy_twins(rep, F, "R7.11", ("Euclidean",))
